@@ -34,6 +34,16 @@ Definition obj_getattr (h : heap) (o : pyval) (a : pystr) : res pyval :=
   | _ => Raise AttributeError
   end.
 
+(* hasattr(o, a) *)
+Definition obj_hasattr (h : heap) (o : pyval) (a : pystr) : res bool :=
+  match o with
+  | POther t name =>
+      if pystr_eqb t ref_tag then Ok (match h name a with Some _ => true | None => false end)
+      else Raise Unmodelled
+  | PStruct _ _ | PEnum _ _ _ => Raise Unmodelled
+  | _ => Ok false
+  end.
+
 (* typedpy.commons._is_sunder / _is_dunder (enum-module style name tests), on code points *)
 Definition underscore : N := 95%N.
 Definition is_us (c : N) : bool := N.eqb c underscore.
